@@ -55,6 +55,14 @@ func init() {
 		v := classOf(func() error { return md.VerifySignature(key) })
 		return map[string]any{"sign": s, "verify": v}
 	}})
+	regOp(&Op{Name: "survivechain", Impl: func(a map[string]any) any {
+		// a whole generated scenario through InTotoVerify: crash / hang freedom only
+		res, _ := verifyImpl(a).(map[string]any)
+		if res != nil && res["res"] == "panic" {
+			return "panic"
+		}
+		return "ok"
+	}})
 	regOp(&Op{Name: "survive", Impl: func(a map[string]any) any {
 		dir := scratch()
 		p := filepath.Join(dir, "sv.json")
@@ -202,6 +210,26 @@ func runC15(r *Runner, tier string, rng *Rng) {
 		}
 	}
 	flush()
+	// (2b) step names that are patterns, paths, blanks, control characters … with link directories
+	// holding short and oddly named files (crash/hang search only, model not consulted)
+	for i := 0; i < tierN(tier, 150, 3000); i++ {
+		cfg := baseCfg(rng, "C15")
+		cfg.Thresholds = []int{0, 1, 1, 2}
+		cfg.RuleStyle = 2
+		cfg.OddStepNames = true
+		cfg.PopKinds = []string{"garbage", "unsigned", "forged-keyid"}
+		cfg.ExtraPerStep = rng.Intn(2)
+		c := genChainCase(r, rng, cfg)
+		c.Op = "survivechain"
+		c.Trivial = true
+		c.Feat = "oddnames"
+		r.St.Count("odd_step_name_chains")
+		batch = append(batch, c)
+		if len(batch) >= 20 {
+			flush()
+		}
+	}
+	flush()
 	// (3) byte-level mutations (crash/hang search only)
 	nb := tierN(tier, 600, 20000)
 	g := &metaGen{rng: rng, odd: 20, frac: true}
@@ -246,5 +274,5 @@ func runC15(r *Runner, tier string, rng *Rng) {
 		}
 	}
 	flush()
-	r.St.Rule = "(1) Sign and VerifySignature with degenerate key objects: key type contradicting the material, halves of other keys, truncated/garbage/empty PEM, Ed25519 hex of wrong length or alphabet, certificates as key, wrong schemes - outcome class ok/err/panic/hang vs model; (2) degenerate layouts through InTotoVerify: thresholds 0 and negative, steps without links, random rules incl. malformed, hostile link directories (garbage, undecodable signatures, a layout posing as link, many signatures, huge file) vs model; (3) byte-level mutations (bit flips, deletions, insertions, truncation, token injection, deep nesting, random bytes) of valid files through Load/Validate/Verify/Sign/Dump/InTotoVerify: crash and hang freedom only (search support, model not consulted). Class = (stream, key/material classes or population kinds, outcome)."
+	r.St.Rule = "(1) Sign and VerifySignature with degenerate key objects: key type contradicting the material, halves of other keys, truncated/garbage/empty PEM, Ed25519 hex of wrong length or alphabet, certificates as key, wrong schemes - outcome class ok/err/panic/hang vs model; (2) degenerate layouts through InTotoVerify: thresholds 0 and negative, steps without links, random rules incl. malformed, hostile link directories (garbage, undecodable signatures, a layout posing as link, many signatures, huge file) vs model; (2b) layouts whose step names are file-name patterns, paths, dots, blanks, control characters or very long, with short and oddly named files in the link directory: crash and hang freedom only; (3) byte-level mutations (bit flips, deletions, insertions, truncation, token injection, deep nesting, random bytes) of valid files through Load/Validate/Verify/Sign/Dump/InTotoVerify: crash and hang freedom only (search support, model not consulted). Class = (stream, key/material classes or population kinds, outcome)."
 }
